@@ -76,6 +76,8 @@ SEEDED = {
     "T08-A": ["C08"], "T08-B": ["C08"], "T09-A": ["C09"], "T09-B": ["C09"], "T11-A": ["C01", "C11"], "T11-B": ["C11"], "T12-A": ["C12"], "T12-B": ["C12"],
     "T13-A": ["C05", "C13"], "T13-B": ["C05", "C13"], "T14-A": ["C14"], "T14-B": ["C14"], "T15-A": ["C15", "C08"], "T15-B": ["C15", "C08"], "T16-A": ["C16"], "T16-B": ["C16"],
     "T17-A": ["C08", "C17"], "T17-B": ["C08", "C17"],
+    "S16-A": ["C16"], "S16-B": ["C16"], "S08-A": ["C08"], "S08-B": ["C07", "C08"], "S14-A": ["C14", "C15"], "S14-B": ["C14", "C04"], "S13-A": ["C13", "C03"], "S13-B": ["C05", "C13"],
+    "S01-A": ["C01"], "S01-B": ["C05", "C01"],
     "C14-A": ["C14"], "C14-B": ["C14"], "C15-A": ["C15"], "C15-B": ["C15"], "C16-A": ["C16"], "C16-B": ["C16"],
 }
 
